@@ -56,6 +56,11 @@ ROWS = {
          "DESIGN.md §3.2 Untrusted/PwStr, §7 C04",
          "bytes inside a class are sampled; lengths, tags and grammar exhaustive; caller-sized output buffers as documented",
          "TLA+ outcome envelope + grammar checked by TLC; table-driven robustness replay with outcome classification"),
+ "C10": ("exploration",
+         "PwStr.tla models a password-hash string as a sequence of segments, the encoder the property demands and the code's segment-by-segment parser; TLC checks Parse(Encode(o)) = o, Encode(Parse(s)) = s, the needs-rehash truth table and totality on the mutation grammar, and exports the 450 objects (algorithm x costs x salt length x hash length); the harness hashes each object, encodes it as prescribed, has libsodium verify it (right/wrong password), verifies and round-trips it through dryoc (classic and object), checks needs-rehash against the table and libsodium, and verifies libsodium-produced Argon2i/Argon2id strings under dryoc and dryoc-produced strings under libsodium",
+         "DESIGN.md §3.2 PwStr, §7 C10",
+         "small costs; classic str_verify judged on 32-byte hashes only (libsodium's format); libsodium's verifier is the independent oracle for variable lengths",
+         "TLA+ codec spec checked by TLC; object table replayed with libsodium as verifier"),
 }
 NOT_YET = "check not built yet (work in progress; see DESIGN.md section 7)"
 
